@@ -80,3 +80,37 @@ func (f *Frame) chanElemRecv(ch ssa.Value, v Val, cond string) {
 	f.vc.assumeG(g, t)
 	f.vc.trust("channel element invariant " + sf.Name + " assumed at receive (proved at the sends that are under contract)")
 }
+
+// Channels that nobody may close.  `spec neverclosed_<Type>_<field>() bool := true` declares that the channel stored in
+// that field is never closed by the code under contract (readers and writers rely on it: a send on it cannot panic).
+// Every close(x.<field>) in a function under contract is an obligation that cannot be discharged; sends on such a
+// channel may assume it is open.
+func (f *Frame) neverClosedSpec(ch ssa.Value) (*SpecFunc, string) {
+	u, ok := ch.(*ssa.UnOp)
+	if !ok || u.Op != token.MUL {
+		return nil, ""
+	}
+	fa, ok := u.X.(*ssa.FieldAddr)
+	if !ok {
+		return nil, ""
+	}
+	pt, ok := fa.X.Type().Underlying().(*types.Pointer)
+	if !ok {
+		return nil, ""
+	}
+	nt, ok := pt.Elem().(*types.Named)
+	if !ok || nt.Obj().Pkg() == nil {
+		return nil, ""
+	}
+	name := nt.Obj().Name() + "." + fieldName(fa)
+	return f.p.findSpec(nt.Obj().Pkg().Name(), "neverclosed_"+nt.Obj().Name()+"_"+fieldName(fa)), name
+}
+
+func (f *Frame) neverClosedObl(ch ssa.Value, pos token.Pos) {
+	sf, name := f.neverClosedSpec(ch)
+	if sf == nil || !(f.safety || f.rootContract() != nil) {
+		return
+	}
+	lbl := f.label("site", "neverclosed:"+name)
+	f.assertObl("site", lbl, nil, f.guard, "false", f.p.posString(pos))
+}
